@@ -49,7 +49,7 @@ META = {
                   'machinery are trusted. Expression forms outside the '
                   'generator\'s table are not explored.',
     'design_ref': 'DESIGN.md §5 C24',
-    'budget': {'quick': 90, 'thorough': 900},
+    'budget': {'quick': 120, 'thorough': 900},
 }
 RULE = ('case = (evaluator whitelist, expression text, entry point); '
         'distinct by that triple; non-trivial when the expression has >= 3 '
